@@ -294,6 +294,9 @@ func (ea *ErrAnalysis) classOf(v ssa.Value, f *ssa.Function, seen map[ssa.Value]
 				inner.add(ErrClass{Cause: "guard", Origin: fn + "#new(" + tag + ")", Pos: x.Pos(), Fn: f, Wrapped: true})
 			}
 			for _, e := range inner {
+				if e.Cause == "nil" && len(inner) > 1 {
+					continue // a wrapper is only built around a non-nil cause
+				}
 				e2 := e.withTag(tag)
 				if tag == "NotSupported" {
 					e2.Site = fn + "#NotSupported(" + shortOrigin(e.Origin) + ")"
@@ -489,6 +492,16 @@ func (ea *ErrAnalysis) callClass(call *ssa.Call, f *ssa.Function, seen map[ssa.V
 			for _, e := range ea.classOf(a, f, seen) {
 				out.add(e.withTag("Permanent"))
 			}
+		}
+	case pk == "golang.org/x/sync/errgroup" && callee.Name() == "Wait":
+		// the first error returned by a function started with Go on a group of this function
+		for _, sp := range spawnSites(f) {
+			if cl := spawnedClosure(ea.c.P, sp); cl != nil {
+				out.addAll(ea.Summary(cl))
+			}
+		}
+		if len(out) == 0 {
+			out.add(ErrClass{Cause: "unknown", Origin: fn + "#errgroup.Wait", Pos: call.Pos(), Fn: f, Wrapped: true})
 		}
 	case core.InModule(callee):
 		out.addAll(ea.Summary(callee))
